@@ -285,6 +285,9 @@ def run(repo='/repo', tier='quick'):
     c12g(db, res)
     c12h(db, res)
     c12i(db, res)
+    c12j(db, res)
+    c12k(db, res)
+    c12l(db, res)
     return res
 
 
@@ -557,3 +560,176 @@ def c12i(db, res):
                 res.check(ok, 'C12.i', '%s:%s#%d' % (name, fl, ordn[fl]), 'the option %s is consulted under the same test and cuts the string' % opt,
                           '%s raises %s here but does not consult %s under that test: with the option on, this spelling of the NUL does not terminate the string while its sibling spelling does' % (name, fl, opt), w['loc'])
     res.floor('C12.i', 'NUL indicator raise sites', n, 5)
+
+
+def _utf8_scanners(db):
+    """(function, switch block, decoder-state local, accept value, loop body) of every loop over htp_utf8_decode_allow_overlong"""
+    out = []
+    for name, f in sorted(db.fn.items()):
+        for b, blk in f.blocks.items():
+            if blk.get('term', {}).get('kind') != 'SwitchStmt' or not blk['stmts']:
+                continue
+            sc = strip(blk['stmts'][-1])
+            if sc is None or sc.get('k') != 'call' or sc.get('callee') != 'htp_utf8_decode_allow_overlong':
+                continue
+            a0 = strip(sc['args'][0])
+            if a0.get('k') != 'un' or a0['op'] != '&' or strip(a0['e']).get('k') != 'var':
+                continue
+            st_var = strip(a0['e'])['name']
+            inner = [body for h, body in C.loops(f) if b in body]
+            if inner:
+                out.append((f, b, st_var, min(inner, key=len)))
+    return out
+
+
+def c12j(db, res):
+    """A path may END inside a multi-byte character (a lead byte with its continuation bytes missing). Inside the loop such a
+    sequence is only recognised when the next byte arrives and is rejected; at the end of the path nothing arrives, so the
+    scanner has to look at the decoder state after the loop. Same shape as every other 'pending piece at end of input' in
+    this code (C14.h, C15.c): whatever the loop carries from one iteration to the next must be inspected when the loop is
+    left."""
+    res.rule('C12.j', 'pending UTF-8 sequence at the end of the path: after every scanner loop over htp_utf8_decode_allow_overlong, each path to the end of the function passes a test of the decoder state (or of the per-character byte counter), and an unfinished sequence raises HTP_PATH_UTF8_INVALID')
+    n = 0
+    for f, b, st_var, body in _utf8_scanners(db):
+        n += 1
+        exits = sorted({s for bb in body for s in f.blocks[bb]['succs'] if s is not None and s not in body})
+        # per-character counter: the local incremented once per iteration in a block that dominates the switch
+        dom = C.dominators(f)
+        incs = {}
+        for bb in body:
+            for s2 in f.blocks[bb]['stmts']:
+                for u in nodes(s2, lambda y: y.get('k') == 'un' and y['op'] in ('++', '++post') and strip(y['e']).get('k') == 'var'):
+                    incs.setdefault(strip(u['e'])['name'], []).append(bb)
+        watch = {st_var} | {v for v, bs in incs.items() if len(bs) == 1 and bs[0] in dom[b]}
+        after = set()
+        for e in exits:
+            after |= C.reachable(f, e)
+        after -= body
+        tests = []
+        for bb in sorted(after):
+            c_ = f.cond_of(bb)
+            if c_ and any(strip(v).get('k') == 'var' and strip(v)['name'] in watch for v in nodes(c_[0], lambda y: y.get('k') == 'var')):
+                tests.append(bb)
+        # every path from a loop exit to the function exit passes one of the tests
+        ok_paths = True
+        for e in exits:
+            seen, w = set(), [e]
+            while w:
+                x = w.pop()
+                if x in seen or x in tests:
+                    continue
+                seen.add(x)
+                if x == f.exit:
+                    ok_paths = False
+                    break
+                w += [s for s in f.blocks[x]['succs'] if s is not None]
+        raises = False
+        for t in tests:
+            for s in f.blocks[t]['succs']:
+                if s is None:
+                    continue
+                for x in C.reachable(f, s) - body:
+                    if any('HTP_PATH_UTF8_INVALID' in S(a['r']) for st in f.blocks[x]['stmts'] for a in nodes(st, lambda y: y.get('k') == 'assign' and y['op'] == '|=')):
+                        raises = True
+        loc = f.blocks[b]['stmts'][-1]['loc']
+        res.check(bool(tests) and ok_paths and raises, 'C12.j', f.name + ':pending-sequence-at-end',
+                  'the decoder state is inspected after the loop and an unfinished sequence raises HTP_PATH_UTF8_INVALID',
+                  '%s leaves its scanner loop without looking at the decoder state (%s): a path that ends inside a multi-byte character (a lead byte whose continuation bytes are missing) is not reported as invalid UTF-8%s'
+                  % (f.name, ', '.join(sorted(watch)), ', and the best-fit conversion drops those bytes without a replacement' if f.calls('bestfit_codepoint') else ''), loc)
+    res.floor('C12.j', 'UTF-8 scanner loops', n, 2)
+
+
+FULLWIDTH = (0xff00, 0xffef)      # htp_core.h: "Range U+FF00 - U+FFEF detected", htp_config.h: "full-width and half-width form characters (U+FF00-FFEF)"
+
+
+def c12k(db, res):
+    """The half/full-width indicator has four raise sites (UTF-8 best-fit, UTF-8 validation, %u in the path, %u in parameters).
+    The set of code points each site lets through is computed from the guards that dominate it (an interval of a code-point
+    local, or `high byte == K` with bounds on the low byte, the two bytes being the x2c() of offsets 0 and 2) and must be the
+    documented range."""
+    res.rule('C12.k', 'the half-width/full-width indicator is raised for exactly U+FF00..U+FFEF at every raise site: the code points admitted by the guards that dominate the raise (interval of the code-point local, or high byte == 0xff with the bound on the low byte) are computed and compared with the documented range')
+    n = 0
+    for name, f in sorted(db.fn.items()):
+        for b, i, st in f.stmts():
+            for a in nodes(st, lambda y: y.get('k') == 'assign' and y['op'] == '|='):
+                flag = S(a['r'])
+                if 'HALF_FULL_RANGE' not in flag:
+                    continue
+                n += 1
+                # byte locals: x2c(p) is the high byte, x2c(p + 2) the low byte
+                role = {}
+                for bb, ii, s2 in f.stmts():
+                    for d in nodes(s2, lambda y: y.get('k') == 'decl'):
+                        for v in d['vars']:
+                            ini = strip(v.get('init')) if v.get('init') else None
+                            if ini and ini.get('k') == 'call' and ini.get('callee') == 'x2c' and ini['args']:
+                                arg = strip(ini['args'][0])
+                                role[v['name']] = 'lo' if (arg.get('k') == 'bin' and arg['op'] == '+' and is_lit(strip(arg['r']), 2)) else 'hi' if arg.get('k') == 'var' else None
+                lo, hi = 0, 0x10ffff
+                hib = None
+                blo, bhi = 0, 255
+                unknown = []
+                for (l, op, r), e in P.facts_at(f, b):
+                    try:
+                        k = int(r, 0)
+                    except ValueError:
+                        continue
+                    if role.get(l) == 'hi':
+                        if op == '==':
+                            hib = k
+                        elif op != '!=':
+                            unknown.append((l, op, r))
+                    elif role.get(l) == 'lo':
+                        if op == '<=': bhi = min(bhi, k)
+                        elif op == '<': bhi = min(bhi, k - 1)
+                        elif op == '>=': blo = max(blo, k)
+                        elif op == '>': blo = max(blo, k + 1)
+                        elif op == '==': blo, bhi = max(blo, k), min(bhi, k)
+                    elif k >= 0x100 and re.match(r'^[A-Za-z_][A-Za-z0-9_]*$', l):
+                        if op == '<=': hi = min(hi, k)
+                        elif op == '<': hi = min(hi, k - 1)
+                        elif op == '>=': lo = max(lo, k)
+                        elif op == '>': lo = max(lo, k + 1)
+                        elif op == '==': lo, hi = max(lo, k), min(hi, k)
+                if hib is not None:
+                    lo, hi = max(lo, (hib << 8) | blo), min(hi, (hib << 8) | bhi)
+                key = '%s:raises:%s' % (name, flag.split('(')[0].strip())
+                if unknown:
+                    res.unknown('C12.k', key, 'guard on the high byte is not an equality: %s' % (unknown,), a['loc'])
+                    continue
+                res.check((lo, hi) == FULLWIDTH, 'C12.k', key, 'raised for U+%04X..U+%04X' % (lo, hi),
+                          '%s raises %s for U+%04X..U+%04X; the documented half-width/full-width range is U+FF00..U+FFEF (htp_core.h), which is what the sibling raise sites test: %s' % (
+                              name, flag, lo, hi, 'code points U+FFF0..U+FFFF (specials, not width forms) set the indicator' if (lo, hi) == (0xff00, 0xffff) else 'the indicator does not follow the construct'), a['loc'])
+    res.floor('C12.k', 'raise sites of the half/full-width indicators', n, 4)
+
+
+def c12l(db, res):
+    """Best-fit maps are triplets (high byte, low byte, replacement) ended by a zero pair; htp_config_set_bestfit_map() takes
+    any such map from the application and documents no ordering. The three lookups (UTF-8 conversion, %u in the path, %u in
+    parameters) therefore walk the map to its terminator; a lookup that gives up at the first key above the code point is
+    right for the built-in map only."""
+    res.rule('C12.l', 'best-fit lookups walk the whole map: every loop that steps a pointer through a bestfit_map by 3 is left only on an equality test (terminator pair, or a match of both key bytes), never on an ordering comparison of a key with the code point')
+    n = 0
+    for name, f in sorted(db.fn.items()):
+        if not f.blocks:
+            continue
+        for h, body in C.loops(f):
+            step = [a for bb in body for st in f.blocks[bb]['stmts'] for a in nodes(st, lambda y: y.get('k') == 'assign' and y['op'] == '+=' and is_lit(strip(y['r']), 3) and strip(y['l']).get('k') == 'var')]
+            if not step:
+                continue
+            pv = strip(step[0]['l'])['name']
+            inits = [v for bb, ii, s2 in f.stmts() for d in nodes(s2, lambda y: y.get('k') == 'decl') for v in d['vars'] if v['name'] == pv and v.get('init') and 'bestfit_map' in S(v['init'])]
+            if not inits:
+                continue
+            n += 1
+            bad = []
+            for bb in sorted(body):
+                c = f.cond_of(bb)
+                if not c:
+                    continue
+                a = P.canon(c[0], True)
+                if a and a[1] in ('<', '<=', '>', '>='):
+                    bad.append((a, c[0].get('loc', f.loc)))
+            res.check(not bad, 'C12.l', name + ':bestfit-lookup', 'the lookup ends at the terminator or at a match',
+                      '%s leaves its best-fit lookup on an ordering test (%s): a map installed with htp_config_set_bestfit_map() need not be sorted, and every mapping behind the first larger key is ignored' % (name, ' '.join(bad[0][0]) if bad else ''), bad[0][1] if bad else f.loc)
+    res.floor('C12.l', 'best-fit lookup loops', n, 3)
